@@ -133,7 +133,7 @@ Proof.
     apply allc_set; [assumption|]. intros c0 E. inversion E. pose proof (allc_get _ _ _ _ H G) as Hc.
     unfold aff_ok in *. cbn. intros a Ha. apply getb_setb_mono. auto.
   - (* Choke *) conn_case s p G. pose proof (allc_get _ _ _ _ H G) as Hc.
-    destruct (c_q c), (c_u c); inversion A; unfold inv_aff; cbn; (apply allc_set; [assumption|]);
+    destruct (c_q c), (c_u c), (if choke_checks_stalled then c_s c else []); inversion A; unfold inv_aff; cbn; (apply allc_set; [assumption|]);
       intros c0 E; inversion E; unfold aff_ok in *; cbn; assumption.
   - (* Unchoke *) conn_case s p G. pose proof (allc_get _ _ _ _ H G) as Hc. inversion A. unfold inv_aff. cbn.
     apply allc_set; [assumption|]. intros c0 E. inversion E. unfold aff_ok in *. cbn. assumption.
